@@ -25,7 +25,7 @@ from vlib import wbsys
 PROPERTY_ID = "C14"
 RULE = ("four corner energies built from a base value (|E|<=1e3, optional +-1e4 offset) and three sorted gaps, each "
         "exactly 0, tiny (1e-13..1e-6) or normal (1e-3..3 times a scale 1e-3..1e2), in a drawn corner order; Fermi levels "
-        "on corners, inside every piece, just beside corners and far outside; der 0..3 and -1 (groups), accurate and "
+        "on corners, inside every piece, just beside corners and far outside; Fermi grids starting / ending exactly at a band top / bottom; der 0..3 and -1 (groups), accurate and "
         "polynomial branch; parallelepipeds (8 corners + centre) and TetraWeights band groups; small random "
         "tight-binding systems for CumDOS(tetra=True).  non-trivial = >=2 coincident / near-coincident corners or a "
         "Fermi level in the middle piece e2 <= E_F < e3")
@@ -481,6 +481,9 @@ groups_st = st.fixed_dictionaries(dict(
     kramers=st.booleans(),
     der=st.sampled_from([0, 0, 0, -1, -1, 1, 2]),
     nef=st.integers(1, 7), ef0=fl(-4, 8), efstep=st.sampled_from([0.01, 0.3, 1.0, 4.0]),
+    # Fermi grids that start exactly at the top of a band / end exactly at the bottom of a band (over centre and corners
+    # of the first k-point): a grid that starts at the valence-band maximum is an everyday choice
+    tie=st.sampled_from([None, None, None, "first=top", "last=bottom", "first=bottom", "last=top"]), tieband=st.integers(0, 4),
 ))
 
 
@@ -513,6 +516,15 @@ def build_groups(case):
         corners[ik] = np.sort(corners[ik], axis=1)
         centre[ik] = np.sort(centre[ik])
     ef = case["ef0"] + case["efstep"] * np.arange(case["nef"])
+    if case.get("tie"):
+        ib = case["tieband"] % nb
+        top = max(float(corners[0, :, ib].max()), float(centre[0, ib]))
+        bot = min(float(corners[0, :, ib].min()), float(centre[0, ib]))
+        v = top if case["tie"].endswith("top") else bot
+        if case["tie"].startswith("first"):
+            ef = v + case["efstep"] * np.arange(case["nef"])
+        else:
+            ef = v - case["efstep"] * np.arange(case["nef"])[::-1]
     return centre, corners, ef
 
 
@@ -642,7 +654,8 @@ def check_groups(case):
                 if x > allmax + 1e-11 and abs(tot[j] - nb) > 1e-12:
                     raise Violation("cumulative-above", f"{desc}: total {tot[j]} != {nb} above all bands")
     return ok(compared > 0 and (n_sea > 0 or n_partial > 0), f"der={der}", f"thresh={thresh}", f"kramers={kram}",
-              "completed-block" if n_sea else None, "partial" if n_partial else None, f"nb={nb}")
+              "completed-block" if n_sea else None, "partial" if n_partial else None, f"nb={nb}",
+              ("tie:" + case["tie"]) if case.get("tie") else None)
 
 
 # ------------------------------------------------------------------------------------------------
